@@ -7,6 +7,7 @@ CONSTANTS
   ArgVals <- DesignArgs
   StepVals = {1, 2, 3}
   Fuel = 14
+  OneQ = FALSE
   MaxAbs = 10
 INVARIANTS TTypeOK TBounded TileCovers TileSound
 CHECK_DEADLOCK FALSE
